@@ -2855,12 +2855,23 @@ identify_mpeg (uint32_t marker)
 static int
 guess_file_type (SF_PRIVATE *psf)
 {	uint32_t buffer [3], format ;
+	int probe ;
 
 retry:
-	if (psf_binheader_readf (psf, "b", &buffer, SIGNED_SIZEOF (buffer)) != SIGNED_SIZEOF (buffer))
+	/*
+	**	A file can be shorter than the probe : a PVF file without audio data is its
+	**	text header alone, 11 bytes for a one digit sample rate. What is there is looked
+	**	at with zeros behind it ; the header parser of the file type then decides.
+	*/
+	probe = SIGNED_SIZEOF (buffer) ;
+	if (psf->filelength > 0 && psf->filelength < probe)
+		probe = (int) psf->filelength ;
+
+	memset (buffer, 0, sizeof (buffer)) ;
+	if (psf_binheader_readf (psf, "b", &buffer, (size_t) probe) != probe)
 	{	/*
-		**	Too short for any header. The data file of an SD2 file has no header
-		**	at all (it is known by its resource fork) and may well be this short.
+		**	Nothing to look at. The data file of an SD2 file has no header
+		**	at all (it is known by its resource fork) and may well be empty.
 		*/
 		if ((format = try_resource_fork (psf)) != 0)
 			return format ;
